@@ -24,6 +24,8 @@ type Case struct {
 	Nested bool     `json:"nested,omitempty"` // the pipeline is itself a stage of an outer pipeline
 	Vals   int      `json:"vals,omitempty"`   // value shape: 0 plain, 1 the winning level's value is empty, 2 values contain '=' and a space, 3 every lower level's value is empty
 	Name2  string   `json:"name2,omitempty"`  // name of the second variable (default W)
+	Allow  bool     `json:"allow,omitempty"`  // undef: the task has allow_failure: true (tolerates failing COMMANDS; an undefined variable is not a failing command)
+	Prior  bool     `json:"prior,omitempty"`  // another target that defines the same name at every level it can runs first in the same invocation
 	Sibs   []string `json:"sibs,omitempty"`   // further names only the parent process defines (neighbours of X in a sorted environment)
 	SubDir bool     `json:"subdir,omitempty"` // invoked from a sub-directory
 	Args   []string `json:"args,omitempty"`
@@ -33,7 +35,7 @@ type Case struct {
 }
 
 func (c Case) String() string {
-	return fmt.Sprintf("%s levels=%v desc=%v order=%v stage=%v nested=%v vals=%d name2=%q sibs=%v subdir=%v args=%q via=%q k=%d p=%d second=%v", c.Kind, c.Levels, c.Desc, c.Order, c.Stage, c.Nested, c.Vals, c.Name2, c.Sibs, c.SubDir, c.Args, c.Via, c.K, c.P, c.Second)
+	return fmt.Sprintf("%s levels=%v desc=%v order=%v stage=%v nested=%v vals=%d name2=%q sibs=%v prior=%v allow=%v subdir=%v args=%q via=%q k=%d p=%d second=%v", c.Kind, c.Levels, c.Desc, c.Order, c.Stage, c.Nested, c.Vals, c.Name2, c.Sibs, c.Prior, c.Allow, c.SubDir, c.Args, c.Via, c.K, c.P, c.Second)
 }
 
 func has(l []int, x int) bool {
@@ -214,8 +216,32 @@ func envCase(c Case, dir string) string {
 		}
 	}
 	target = nest(c, &y, target)
+	targets := []string{target}
+	if c.Prior {
+		// an earlier target of the same invocation defines X (and the second name) at every level a target can:
+		// nothing of it may be left behind for the target under observation
+		os.WriteFile(filepath.Join(dir, "t0.env"), []byte("X=prior-file\n"+c.n2()+"=prior-file\n"), 0o644)
+		doc := y.String()
+		ctx0 := "  c0:\n    env:\n      X: prior-ctx\n      " + c.n2() + ": prior-ctx\n"
+		if strings.HasPrefix(doc, "contexts:\n") {
+			doc = "contexts:\n" + ctx0 + strings.TrimPrefix(doc, "contexts:\n")
+		} else {
+			doc = "contexts:\n" + ctx0 + doc
+		}
+		t0 := "tasks:\n  t0:\n    context: c0\n    env_file: t0.env\n    env:\n      X: prior-task\n      " + c.n2() + ": prior-task\n    variations:\n      - X: prior-var\n    command: 'echo \"PRIOR X=$X\"'\n"
+		doc = strings.Replace(doc, "tasks:\n", t0, 1)
+		prior := "t0"
+		if c.Stage {
+			prior = "p0"
+			p0 := "pipelines:\n  p0:\n    - task: t0\n      env:\n        X: prior-stage\n        " + c.n2() + ": prior-stage\n"
+			doc = strings.Replace(doc, "pipelines:\n", p0, 1)
+		}
+		y.Reset()
+		y.WriteString(doc)
+		targets = []string{prior, target}
+	}
 	os.WriteFile(filepath.Join(dir, "tasks.yaml"), []byte(y.String()), 0o644)
-	r, err := runTaskctl(dir, dir, env, "--output", "raw", target)
+	r, err := runTaskctl(dir, dir, env, append([]string{"--output", "raw"}, targets...)...)
 	if err != nil {
 		return "infra: " + err.Error()
 	}
@@ -378,10 +404,25 @@ func varsCase(c Case, dir string) string {
 		}
 	}
 	target = nest(c, &y, target)
+	prior := ""
+	if c.Prior {
+		// an earlier target of the same invocation sets v at the task (and stage) level: it must not reach the observed target
+		doc := strings.Replace(y.String(), "tasks:\n", "tasks:\n  t0:\n    variables:\n      v: prior-task\n    command: 'echo \"PRIOR v={{.v}}\"'\n", 1)
+		prior = "t0"
+		if c.Stage {
+			prior = "p0"
+			doc = strings.Replace(doc, "pipelines:\n", "pipelines:\n  p0:\n    - task: t0\n      variables:\n        v: prior-stage\n", 1)
+		}
+		y.Reset()
+		y.WriteString(doc)
+	}
 	os.WriteFile(filepath.Join(dir, "tasks.yaml"), []byte(y.String()), 0o644)
 	args := []string{"--output", "raw"}
 	if has(c.Levels, 2) {
 		args = append(args, "--set", "v="+c.val(2, "v"))
+	}
+	if prior != "" {
+		args = append(args, prior)
 	}
 	args = append(args, target)
 	r, err := runTaskctl(dir, dir, nil, args...)
@@ -465,7 +506,11 @@ pipelines:
 func undefCase(c Case, dir string) string {
 	trace := filepath.Join(dir, "trace")
 	var y strings.Builder
-	y.WriteString("tasks:\n  t1:\n    command:\n")
+	y.WriteString("tasks:\n  t1:\n")
+	if c.Allow {
+		y.WriteString("    allow_failure: true\n")
+	}
+	y.WriteString("    command:\n")
 	for i := 1; i <= c.K; i++ {
 		if i == c.P {
 			form := map[string]string{"": "{{.nope}}", "if": "{{if .nope}}x{{end}}", "ifeq": "{{if eq .nope \"a\"}}x{{end}}", "with": "{{with .nope}}x{{end}}",
@@ -919,7 +964,7 @@ func main() {
 			return false
 		}
 		res.Evaluations++
-		distinct[fmt.Sprint(c.Kind, c.Levels, c.Stage, c.Nested, c.Vals, c.Name2, c.Sibs, c.Args, c.K, c.P, c.SubDir, c.Via)] = true
+		distinct[fmt.Sprint(c.Kind, c.Levels, c.Stage, c.Nested, c.Vals, c.Name2, c.Sibs, c.Prior, c.Allow, c.Args, c.K, c.P, c.SubDir, c.Via)] = true
 		if res.Evaluations%23 == 1 {
 			res.AddSample(c.String())
 		}
@@ -970,6 +1015,10 @@ func main() {
 					if do(Case{Kind: "env", Levels: s, Stage: stage, Vals: vs}) {
 						goto done
 					}
+				}
+				// an earlier target of the same invocation that defines the name at every level it can
+				if do(Case{Kind: "env", Levels: s, Stage: stage, Prior: true}) {
+					goto done
 				}
 				// the shape of the parent environment around X must not matter: names that sort just before and just
 				// after "X=" ('0'-'9' sort before '=', letters and '_' after it), alone and together
@@ -1072,6 +1121,10 @@ func main() {
 					if stage && do(Case{Kind: "vars", Levels: s, Desc: desc, Stage: true, Nested: true}) {
 						goto done
 					}
+				}
+				// an earlier target of the same invocation that sets the variable at its own task and stage level
+				if do(Case{Kind: "vars", Levels: s, Stage: stage, Prior: true}) {
+					goto done
 				}
 				for vs := 1; vs <= 3; vs++ { // empty winning value, values with '=' and a space, empty lower values
 					if do(Case{Kind: "vars", Levels: s, Stage: stage, Vals: vs}) {
@@ -1178,6 +1231,9 @@ func main() {
 				for _, stage := range []bool{false, true} {
 					for _, form := range []string{"", "if", "ifeq", "with", "range", "default", "nested", "printf"} {
 						if do(Case{Kind: "undef", K: k, P: p, Stage: stage, Via: form}) {
+							goto done
+						}
+						if do(Case{Kind: "undef", K: k, P: p, Stage: stage, Via: form, Allow: true}) {
 							goto done
 						}
 					}
